@@ -19,11 +19,13 @@ import (
 	"fmt"
 	"math"
 	"math/rand"
+	"regexp"
 	"strings"
 
 	"google.golang.org/protobuf/encoding/protojson"
 	"google.golang.org/protobuf/encoding/prototext"
 	"google.golang.org/protobuf/internal/filedesc"
+	"google.golang.org/protobuf/internal/strs"
 	fuzzpb "google.golang.org/protobuf/internal/testprotos/editionsfuzztest"
 	"google.golang.org/protobuf/proto"
 	"google.golang.org/protobuf/reflect/protoreflect"
@@ -49,7 +51,7 @@ func runC38(c *C) {
 	featWitnesses(c)
 	n := c.N(700, 20000)
 	for i := 0; i < n && !c.Failed(); i++ {
-		o := genOpts{NoImports: true, NoMsgSet: true}
+		o := genOpts{NoImports: true, NoMsgSet: true, ForModel: true}
 		switch c.Rand.Intn(6) {
 		case 0, 1, 2:
 			o.Syntax = "editions"
@@ -204,7 +206,7 @@ func featCase(c *C, a *AFile) {
 	if err != nil || pn != nil {
 		// the generator aims at valid schemas; with AnyTarget overrides a schema may still be refused
 		c.Hist("A:newfile-rejected")
-		c.Check(pn == nil, fmt.Sprintf("NewFile panics: %v", pn), in, "")
+		chk(c, pn == nil, fmt.Sprintf("NewFile panics: %v", pn), in, "")
 		return
 	}
 	raw, _ := proto.MarshalOptions{Deterministic: true}.Marshal(p)
@@ -217,7 +219,7 @@ func featCase(c *C, a *AFile) {
 	})
 	if !untyped { // filedesc needs protoc-canonical input (every field typed)
 		fdF, pn = buildRaw(raw, depResolver{reg})
-		if !c.Check(pn == nil, fmt.Sprintf("filedesc.Builder panics: %v", pn), in, "") {
+		if !chk(c, pn == nil, fmt.Sprintf("filedesc.Builder panics: %v", pn), in, "") {
 			return
 		}
 	}
@@ -246,16 +248,22 @@ func featCase(c *C, a *AFile) {
 		if builder == "filedesc" && strings.HasPrefix(what, "enum") && len(ch) > 0 && !ch[len(ch)-1].empty() {
 			sig = sigEnumFeatures
 		}
-		c.Check(implGo(got) == want, fmt.Sprintf("%s: %s-built EditionFeatures %q differ from nearest-override-else-default %q (chain %s)", what, builder, implGo(got), want, chainToken(ch)), in, sig)
+		chk(c, implGo(got) == want, fmt.Sprintf("%s: %s-built EditionFeatures %q differ from nearest-override-else-default %q (chain %s)", what, builder, implGo(got), want, chainToken(ch)), in, sig)
 		if c.HasModel() && packed == 0 {
-			ans := c.Ask("resolve %d %s", ed, chainToken(ch))
+			mch := ch
+			if builder == "filedesc" && what == "enum" {
+				mch = ch[:len(ch)-1] // (*Enum).unmarshalSeed copies the parent's features and never reads the enum's own
+			}
+			ans := c.Ask("resolve %d %s", ed, chainToken(mch))
 			// "spec … | protodesc … | filedesc …"
 			parts := strings.Split(ans, " | ")
 			if len(parts) == 3 {
 				c.Compare("resolveGo("+builder+") "+what, in, builder+" "+implGoOrWant(got, builder, what, ch, want), strings.TrimSpace(parts[map[string]int{"protodesc": 1, "filedesc": 2}[builder]]))
 				specWant := fmt.Sprintf("spec %d %d %d %d %d %d", r.FP, r.ET, r.RFE, r.UTF8, r.ME, r.JF)
 				specGot := strings.Join(strings.Fields(parts[0])[:7], " ")
-				c.Compare("resolveSpec vs harness oracle "+what, in, specWant, specGot)
+				if len(mch) == len(ch) {
+					c.Compare("resolveSpec vs harness oracle "+what, in, specWant, specGot)
+				}
 			} else {
 				c.Compare("resolve "+what, in, want, ans)
 			}
@@ -302,9 +310,14 @@ func featCase(c *C, a *AFile) {
 				if af.Packed != 0 {
 					packed = fmt.Sprint(af.Packed - 1)
 				}
-				utf8 := false
-				if u, ok := b.fd.(interface{ EnforceUTF8() bool }); ok {
-					utf8 = u.EnforceUTF8()
+				utf8 := strs.EnforceUTF8(b.fd) // what the codecs ask
+				if b.fd.Kind() == protoreflect.StringKind {
+					r, _ := resolve(ch)
+					sig := ""
+					if isExt && a.Syntax == "editions" {
+						sig = sigExtUTF8
+					}
+					chk(c, utf8 == (r.UTF8 == 2), fmt.Sprintf("%s %s: strs.EnforceUTF8 = %v but the resolved utf8_validation is %d (chain %s)", what, b.fd.FullName(), utf8, r.UTF8, chainToken(ch)), in, sig)
 				}
 				got := fmt.Sprintf("card=%d kind=%d presence=%s packed=%s utf8=%s", b.fd.Cardinality(), b.fd.Kind(), bit(b.fd.HasPresence()), bit(b.fd.IsPacked()), bit(utf8))
 				ans := c.Ask("attrs %d %s %d %d %s %s %s %s %s %s", ed, bit(isExt), af.Label, typ, bit(hasMsg), bit(inOneof), bit(mapish), packed, chainToken(chain), ovToken(af.Feat))
@@ -313,7 +326,7 @@ func featCase(c *C, a *AFile) {
 					sig = sigUntypedDelim
 				}
 				if got != ans && sig != "" {
-					c.Check(false, "attributes of an untyped message field under DELIMITED differ from the model of a typed one: "+got+" vs "+ans, in, sig)
+					chk(c, false, "attributes of an untyped message field under DELIMITED differ from the model of a typed one: "+got+" vs "+ans, in, sig)
 				} else {
 					c.Compare("attrs("+b.name+") "+string(b.fd.FullName()), in, got, ans)
 				}
@@ -514,11 +527,11 @@ func pairCase(c *C, name string, wire []byte) {
 	eb := proto.Unmarshal(wire, mb)
 	okBoth := ea == nil && eb == nil
 	c.Case(name+"|"+in.Wire, okBoth && len(wire) > 0)
-	if !c.Check((ea == nil) == (eb == nil), fmt.Sprintf("pair %s: unmarshal verdicts differ: %v vs %v", name, ea, eb), in, "") {
+	if !chk(c, (ea == nil) == (eb == nil), fmt.Sprintf("pair %s: unmarshal verdicts differ: %v vs %v", name, ea, eb), in, "") {
 		return
 	}
 	if ea != nil {
-		c.Check(normErr(ea.Error(), p) == normErr(eb.Error(), p), fmt.Sprintf("pair %s: unmarshal errors differ: %v vs %v", name, ea, eb), in, "")
+		chk(c, normErr(ea.Error(), p) == normErr(eb.Error(), p), fmt.Sprintf("pair %s: unmarshal errors differ: %v vs %v", name, ea, eb), in, "")
 		c.Hist("B:outcome=decode-error")
 		return
 	}
@@ -526,41 +539,45 @@ func pairCase(c *C, name string, wire []byte) {
 	det := proto.MarshalOptions{Deterministic: true}
 	ba, e1 := det.Marshal(ma)
 	bb, e2 := det.Marshal(mb)
-	if !c.Check((e1 == nil) == (e2 == nil), fmt.Sprintf("pair %s: marshal verdicts differ: %v vs %v", name, e1, e2), in, "") {
+	if !chk(c, (e1 == nil) == (e2 == nil), fmt.Sprintf("pair %s: marshal verdicts differ: %v vs %v", name, e1, e2), in, "") {
 		return
 	}
-	c.Check(bytes.Equal(ba, bb), fmt.Sprintf("pair %s: re-marshalled bytes differ: %x vs %x", name, ba, bb), in, "")
-	c.Check(proto.Size(ma) == proto.Size(mb), fmt.Sprintf("pair %s: Size differs: %d vs %d", name, proto.Size(ma), proto.Size(mb)), in, "")
-	c.Check(proto.CheckInitialized(ma) == nil == (proto.CheckInitialized(mb) == nil), "pair "+name+": CheckInitialized differs", in, "")
+	chk(c, bytes.Equal(ba, bb), fmt.Sprintf("pair %s: re-marshalled bytes differ: %x vs %x", name, ba, bb), in, "")
+	chk(c, proto.Size(ma) == proto.Size(mb), fmt.Sprintf("pair %s: Size differs: %d vs %d", name, proto.Size(ma), proto.Size(mb)), in, "")
+	chk(c, proto.CheckInitialized(ma) == nil == (proto.CheckInitialized(mb) == nil), "pair "+name+": CheckInitialized differs", in, "")
 	// JSON
-	ja, e1 := protojson.MarshalOptions{}.Marshal(ma)
-	jb, e2 := protojson.MarshalOptions{}.Marshal(mb)
-	if c.Check((e1 == nil) == (e2 == nil), fmt.Sprintf("pair %s: JSON marshal verdicts differ: %v vs %v", name, e1, e2), in, "") && e1 == nil {
-		c.Check(squash(ja) == squash(jb), fmt.Sprintf("pair %s: JSON differs: %s vs %s", name, clip(ja), clip(jb)), in, "")
+	// enum VALUE NAMES differ between the two files by design (same package): JSON is compared with enum numbers,
+	// text after renaming the editions side's value names to the legacy side's (matched by field path and number).
+	ja, e1 := protojson.MarshalOptions{UseEnumNumbers: true}.Marshal(ma)
+	jb, e2 := protojson.MarshalOptions{UseEnumNumbers: true}.Marshal(mb)
+	if chk(c, (e1 == nil) == (e2 == nil), fmt.Sprintf("pair %s: JSON marshal verdicts differ: %v vs %v", name, e1, e2), in, "") && e1 == nil {
+		chk(c, squash(ja) == squash(jb), fmt.Sprintf("pair %s: JSON differs: %s vs %s", name, clip(ja), clip(jb)), in, "")
 		// cross-parse: JSON of one side into the other type
 		xa := p.a.ProtoReflect().Type().New().Interface()
 		xb := p.b.ProtoReflect().Type().New().Interface()
 		e1 := protojson.Unmarshal(jb, xa)
 		e2 := protojson.Unmarshal(ja, xb)
-		if c.Check((e1 == nil) == (e2 == nil), fmt.Sprintf("pair %s: JSON unmarshal verdicts differ: %v vs %v", name, e1, e2), in, "") && e1 == nil {
+		if chk(c, (e1 == nil) == (e2 == nil), fmt.Sprintf("pair %s: JSON unmarshal verdicts differ: %v vs %v", name, e1, e2), in, "") && e1 == nil {
 			b1, _ := det.Marshal(xa)
 			b2, _ := det.Marshal(xb)
-			c.Check(bytes.Equal(b1, b2), fmt.Sprintf("pair %s: bytes after JSON round trip differ: %x vs %x", name, b1, b2), in, "")
+			chk(c, bytes.Equal(b1, b2), fmt.Sprintf("pair %s: bytes after JSON round trip differ: %x vs %x", name, b1, b2), in, "")
 		}
 	}
 	// text
 	ta, e1 := prototext.MarshalOptions{}.Marshal(ma)
 	tb, e2 := prototext.MarshalOptions{}.Marshal(mb)
-	if c.Check((e1 == nil) == (e2 == nil), fmt.Sprintf("pair %s: text marshal verdicts differ: %v vs %v", name, e1, e2), in, "") && e1 == nil {
-		c.Check(squash(ta) == squash(tb), fmt.Sprintf("pair %s: text differs: %s vs %s", name, clip(ta), clip(tb)), in, "")
+	if chk(c, (e1 == nil) == (e2 == nil), fmt.Sprintf("pair %s: text marshal verdicts differ: %v vs %v", name, e1, e2), in, "") && e1 == nil {
+		b2a, a2b := enumRenames(p)
+		tbA := rename(tb, b2a) // editions side spelt with the legacy side's value names
+		chk(c, squash(ta) == squash(tbA), fmt.Sprintf("pair %s: text differs: %s vs %s", name, clip(ta), clip(tbA)), in, "")
 		xa := p.a.ProtoReflect().Type().New().Interface()
 		xb := p.b.ProtoReflect().Type().New().Interface()
-		e1 := prototext.Unmarshal(tb, xa)
-		e2 := prototext.Unmarshal(ta, xb)
-		if c.Check((e1 == nil) == (e2 == nil), fmt.Sprintf("pair %s: text unmarshal verdicts differ: %v vs %v", name, e1, e2), in, "") && e1 == nil {
+		e1 := prototext.Unmarshal(tbA, xa)
+		e2 := prototext.Unmarshal(rename(ta, a2b), xb)
+		if chk(c, (e1 == nil) == (e2 == nil), fmt.Sprintf("pair %s: text unmarshal verdicts differ: %v vs %v", name, e1, e2), in, "") && e1 == nil {
 			b1, _ := det.Marshal(xa)
 			b2, _ := det.Marshal(xb)
-			c.Check(bytes.Equal(b1, b2), fmt.Sprintf("pair %s: bytes after text round trip differ: %x vs %x", name, b1, b2), in, "")
+			chk(c, bytes.Equal(b1, b2), fmt.Sprintf("pair %s: bytes after text round trip differ: %x vs %x", name, b1, b2), in, "")
 		}
 	}
 }
@@ -687,4 +704,61 @@ func randomScalar(r *rand.Rand, fd protoreflect.FieldDescriptor) protoreflect.Va
 		return protoreflect.ValueOfBytes(b)
 	}
 	panic("randomScalar: " + fd.Kind().String())
+}
+
+// enumRenames maps enum value names of the editions message (b) to those of the legacy message (a) and back,
+// matching enums through parallel field numbers and values through their numbers.
+func enumRenames(p msgPair) (b2a, a2b map[string]string) {
+	b2a, a2b = map[string]string{}, map[string]string{}
+	seen := map[protoreflect.FullName]bool{}
+	var walk func(a, b protoreflect.MessageDescriptor)
+	walk = func(a, b protoreflect.MessageDescriptor) {
+		if seen[a.FullName()] {
+			return
+		}
+		seen[a.FullName()] = true
+		for i := 0; i < a.Fields().Len(); i++ {
+			fa := a.Fields().Get(i)
+			fb := b.Fields().ByNumber(fa.Number())
+			if fb == nil {
+				continue
+			}
+			ea, eb := fa.Enum(), fb.Enum()
+			if fa.IsMap() {
+				ea, eb = fa.MapValue().Enum(), fb.MapValue().Enum()
+			}
+			if ea != nil && eb != nil {
+				for j := 0; j < eb.Values().Len(); j++ {
+					vb := eb.Values().Get(j)
+					if va := ea.Values().ByNumber(vb.Number()); va != nil && va.Name() != vb.Name() {
+						b2a[string(vb.Name())] = string(va.Name())
+						a2b[string(va.Name())] = string(vb.Name())
+					}
+				}
+			}
+			ma, mb := fa.Message(), fb.Message()
+			if fa.IsMap() {
+				ma, mb = fa.MapValue().Message(), fb.MapValue().Message()
+			}
+			if ma != nil && mb != nil {
+				walk(ma, mb)
+			}
+		}
+	}
+	walk(p.a.ProtoReflect().Descriptor(), p.b.ProtoReflect().Descriptor())
+	return
+}
+
+var identRe = regexp.MustCompile(`[A-Za-z_][A-Za-z0-9_]*`)
+
+func rename(text []byte, m map[string]string) []byte {
+	if len(m) == 0 {
+		return text
+	}
+	return identRe.ReplaceAllFunc(text, func(w []byte) []byte {
+		if r, ok := m[string(w)]; ok {
+			return []byte(r)
+		}
+		return w
+	})
 }
